@@ -17,7 +17,7 @@ import traceback
 VERIF = os.path.dirname(os.path.dirname(os.path.abspath(__file__)))
 sys.path.insert(0, VERIF)
 
-from pyvc import harness, smt, frontend  # noqa: E402
+from pyvc import harness, smt, frontend, sym  # noqa: E402
 from contracts import registry  # noqa: E402
 
 NATIVE_PY = "/venv/bin/python"
@@ -174,6 +174,9 @@ def check(prop, tier, seed):
         try:
             m = importlib.import_module("contracts." + modname)
             m.generate(ctx)
+        except sym.Undecided as e:
+            # a function of this module is outside what the front end can bring under contract on this tree
+            ctx.undecided.append({"obligation": "contracts." + modname, "reason": "undecided: %s" % e})
         except Exception:
             gen_errors.append("%s: %s" % (modname, traceback.format_exc(limit=8)))
     obs = ctx.obligations
